@@ -317,6 +317,8 @@ def aten_getitem(interp, t: ATen, idx):
         else:
             i = idx
         r = mk("row" if t.rank == 2 else "at", [t, i], t.shape_l[1:], t.dtype, t.kind, storage=t.storage)
+        if r.rank == 0 and t.dtype.eq(U("int64", DtypeS)):
+            r.intval = U("item_i", IntS, r.term)
         return r
     if isinstance(idx, ATen):  # index tensor: x[order]
         r = mk("take", [t, idx], idx.shape_l + t.shape_l[1:], t.dtype, t.kind)
@@ -774,7 +776,13 @@ def t_rand(interp, *size, dtype=None, device=None):
 def t_randperm(interp, n):
     d = interp.cx.ghost.get("rng", 0)
     interp.cx.ghost["rng"] = d + 1
-    return mk("randperm", [n, d], [n], U("int64", DtypeS))
+    r = mk("randperm", [n, d], [n], U("int64", DtypeS))
+    # [T] randperm(n) is a permutation of 0..n-1: every entry is a valid index
+    k = z3.Int("k!q")
+    ent = U("item_i", IntS, U("at", ArrS, r.term, k))
+    interp.cx.assume(V.forall([k], z3.Implies(z3.And(0 <= k, k < lift(n)), z3.And(0 <= ent, ent < lift(n))), patterns=[ent]),
+                     tag="randperm(n) is a permutation of 0..n-1 [T]")
+    return r
 
 
 @prim("torch.nan_to_num")
